@@ -225,6 +225,18 @@ impl<'a> Ctx<'a> {
             _ => {
                 let key = (d.sub.clone(), canon_ack(&d.recv.ack_id));
                 if let Some(list) = self.mods.get(&key) {
+                    // Which request set the deadline that is in force? Requests are processed by the
+                    // subscription actor in an order we only partly know: X certainly precedes Y only
+                    // if X had certainly been processed (reply / quiescent barrier) before Y was
+                    // invoked. Keep every deadline that may be the one in force ("candidates"): the
+                    // lease certainly lasts until the smallest and is certainly over at the largest.
+                    struct Cand {
+                        lo: u64,
+                        hi: u64,
+                        /// after this sequence number the request can no longer take effect
+                        gone_by: Option<u64>,
+                    }
+                    let mut cands: Vec<Cand> = vec![Cand { lo, hi, gone_by: Some(d.lo_seq) }];
                     for md in list {
                         if md.end_seq.map(|e| e < d.lo_seq).unwrap_or(false) {
                             continue; // over before this id could exist: no effect possible
@@ -233,22 +245,27 @@ impl<'a> Ctx<'a> {
                             continue; // invoked after the observation
                         }
                         modified = true;
-                        let settled = md.definite && md.done_seq.map(|s| s < from_seq).unwrap_or(false);
+                        let cur_lo = cands.iter().map(|c| c.lo).min().unwrap_or(lo);
+                        // certainly applied, and while the delivery was certainly still outstanding
+                        let settled = md.definite && md.done_seq.map(|s| s < from_seq).unwrap_or(false) && md.done_t.map(|t| t < cur_lo).unwrap_or(false);
                         let n = (md.secs.clamp(0, 600) as u64) * 1_000_000;
-                        if md.secs <= 0 {
+                        let cand = if md.secs <= 0 {
                             nacked = true;
-                            if md.secs == 0 && settled && md.done_t.map(|t| t < lo).unwrap_or(false) {
-                                hi = hi.min(md.done_t.unwrap());
-                            }
-                            lo = lo.min(md.inv_t);
-                        } else if settled && md.done_t.map(|t| t < lo).unwrap_or(false) {
-                            lo = md.inv_t + n;
-                            hi = md.done_t.unwrap() + n + SLACK_US;
+                            Cand { lo: md.inv_t.min(cur_lo), hi: if settled && md.secs == 0 { md.done_t.unwrap() } else { 0 }, gone_by: if settled { md.done_seq } else { md.end_seq } }
+                        } else if settled {
+                            Cand { lo: md.inv_t + n, hi: md.done_t.unwrap() + n + SLACK_US, gone_by: md.done_seq }
                         } else {
-                            lo = lo.min(md.inv_t + n);
-                            hi = hi.max(md.done_t.unwrap_or(md.inv_t + SLACK_US) + n + 2 * SLACK_US);
+                            Cand { lo: md.inv_t + n, hi: md.done_t.unwrap_or(md.inv_t + SLACK_US) + n + 2 * SLACK_US, gone_by: md.end_seq }
+                        };
+                        if settled {
+                            // everything that had certainly happened before this request was invoked is replaced
+                            cands.retain(|c| !c.gone_by.map(|g| g < md.inv_seq).unwrap_or(false));
                         }
+                        cands.push(cand);
                     }
+                    lo = cands.iter().map(|c| c.lo).min().unwrap_or(lo);
+                    // a nack that was not certainly applied leaves the upper bound to the others
+                    hi = cands.iter().map(|c| c.hi).max().unwrap_or(hi);
                 }
                 if let Some(list) = self.acks.get(&key) {
                     for (end_seq, inv_seq, done) in list {
